@@ -9,7 +9,15 @@
 #endif
 uint64_t g_sz[3];                     /* ghost: payload sizes of the blocks of the chain */
 uint8_t g_has1, g_has2;               /* ghost: does the current block have one / two followers */
-#define VERIF_GHOST_INIT() (__CPROVER_havoc_object(g_sz), __CPROVER_havoc_object(&g_has1), __CPROVER_havoc_object(&g_has2))
+struct Arena_ManagedBlock *g_n1, *g_n2;  /* ghost: the followers (NULL when absent); named so that the frees clause can list them unconditionally */
+uint8_t* g_live;                      /* ghost: some other live allocation (a separate object: another block / a dynamic block / a slot handed out earlier) */
+uint64_t g_ptr_off0;                  /* ghost: offset of the bump pointer inside the current block on entry */
+struct Arena_ReusableSlot* g_slot0[8]; /* ghost: slot list heads on entry */
+struct Arena_ReusableSlot* g_slotnext0[8]; /* ghost: their successors */
+struct Arena_DynamicBlock *g_dyn, *g_oth; uint8_t g_dpos;   /* ghost (free_reusable): the dynamic block being released, another one, and their order in the list */
+#define VERIF_GHOST_INIT() (__CPROVER_havoc_object(g_sz), __CPROVER_havoc_object(&g_has1), __CPROVER_havoc_object(&g_has2), __CPROVER_havoc_object(&g_n1), __CPROVER_havoc_object(&g_n2), __CPROVER_havoc_object(&g_live), \
+   __CPROVER_havoc_object(&g_ptr_off0), __CPROVER_havoc_object(g_slot0), __CPROVER_havoc_object(g_slotnext0), \
+   __CPROVER_havoc_object(&g_dyn), __CPROVER_havoc_object(&g_oth), __CPROVER_havoc_object(&g_dpos))
 
 static inline uint8_t* c_data(MB* b) { return (uint8_t*)b + sizeof(MB); }
 static inline uint8_t* c_end(MB* b) { return c_data(b) + b->size; }
@@ -28,6 +36,7 @@ static inline uint8_t* c_end(MB* b) { return c_data(b) + b->size; }
   __CPROVER_requires(self->_current_block->next == NULL || self->_current_block->next->next == NULL || BLK_FRESH(self->_current_block->next->next, 2)) \
   __CPROVER_requires(self->_current_block->next == NULL || self->_current_block->next->next == NULL || self->_current_block->next->next->next == NULL) \
   __CPROVER_requires(g_has1 == (self->_current_block->next != NULL) && g_has2 == (self->_current_block->next != NULL && self->_current_block->next->next != NULL)) \
+  __CPROVER_requires(g_n1 == self->_current_block->next && g_n2 == (self->_current_block->next != NULL ? self->_current_block->next->next : (MB*)NULL)) \
   __CPROVER_requires(self->_end == c_end(self->_current_block) && __CPROVER_same_object(self->_ptr, self->_current_block) && \
      __CPROVER_POINTER_OFFSET(self->_ptr) >= sizeof(MB) && __CPROVER_POINTER_OFFSET(self->_ptr) <= sizeof(MB) + g_sz[0] && (__CPROVER_POINTER_OFFSET(self->_ptr) % 8) == 0) \
   __CPROVER_requires(self->_current_block_size_shift >= 10 && self->_current_block_size_shift <= VERIF_MAXSHIFT && self->_max_block_size_shift == 26 && self->_min_block_size_shift >= 10 && self->_min_block_size_shift <= self->_current_block_size_shift)
@@ -50,13 +59,36 @@ static inline int c_arena_wf(const struct Arena* a) {
   return 0;
 }
 
+#define PIN(lv, val) __CPROVER_pointer_in_range_dfcc(val, lv, val)
+#define C_R1(size) (__CPROVER_old(g_has1) && (size) <= g_sz[1])                 /* the first retained follower takes the request */
+#define C_R2(size) (!C_R1(size) && __CPROVER_old(g_has2) && (size) <= g_sz[2])   /* ... else the second one */
 #define CONTRACT_Arena__alloc_oneshot \
   ARENA_CHAIN_PRE(self) \
   __CPROVER_requires(size % 8 == 0 && size >= 8 && size <= ((uint64_t)1 << VERIF_MAXSHIFT)) \
   __CPROVER_assigns(*self, __CPROVER_object_whole(self->_current_block)) \
   __CPROVER_assigns(self->_current_block->next != NULL: __CPROVER_object_whole(self->_current_block->next)) \
-  __CPROVER_frees(self->_current_block->next) \
-  __CPROVER_frees(self->_current_block->next != NULL: self->_current_block->next->next) \
+  __CPROVER_frees(g_n1, g_n2) \
+  /* A0 which block is current afterwards: the first retained follower that can hold the request, else a fresh heap block large enough \
+   * for it (stated first and with is_fresh / pointer_in_range, so that a caller verified against this contract gets an addressable block) */ \
+  __CPROVER_ensures(__CPROVER_return_value == NULL || \
+     (C_R1(size) ? PIN(self->_current_block, __CPROVER_old(self->_current_block->next)) : \
+      C_R2(size) ? PIN(self->_current_block, __CPROVER_old(self->_current_block->next->next)) : \
+      __CPROVER_is_fresh(self->_current_block, sizeof(MB) + size))) \
+  /* A5 the links of the chain, block by block (what A1 says in one predicate; spelled out with pointer_in_range so that a caller \
+   * verified against this contract can walk the chain: CBMC resolves dereferences by value sets, not by assumed equalities) */ \
+  __CPROVER_ensures(PIN(self->_first_block, __CPROVER_old(self->_first_block))) \
+  __CPROVER_ensures(__CPROVER_return_value != NULL || PIN(self->_current_block, __CPROVER_old(self->_current_block))) \
+  __CPROVER_ensures(__CPROVER_old(self->_current_block)->size == g_sz[0]) \
+  __CPROVER_ensures(__CPROVER_return_value == NULL ? __CPROVER_old(self->_current_block)->next == NULL : \
+     C_R1(size) ? PIN(__CPROVER_old(self->_current_block)->next, __CPROVER_old(self->_current_block->next)) : \
+     C_R2(size) ? PIN(__CPROVER_old(self->_current_block)->next, __CPROVER_old(self->_current_block->next->next)) : \
+     PIN(__CPROVER_old(self->_current_block)->next, self->_current_block)) \
+  __CPROVER_ensures(__CPROVER_return_value == NULL || \
+     (C_R1(size) ? (self->_current_block->size == g_sz[1] && (__CPROVER_old(g_has2) ? PIN(self->_current_block->next, __CPROVER_old(self->_current_block->next->next)) : self->_current_block->next == NULL)) : \
+      C_R2(size) ? 1 : (self->_current_block->next == NULL && self->_current_block->size >= size))) \
+  /* A6 a follower that is kept is not freed */ \
+  __CPROVER_ensures((__CPROVER_return_value != NULL && C_R1(size)) ==> (!__CPROVER_was_freed(g_n1) && (!__CPROVER_old(g_has2) || !__CPROVER_was_freed(g_n2)))) \
+  __CPROVER_ensures((__CPROVER_return_value != NULL && C_R2(size)) ==> !__CPROVER_was_freed(g_n2)) \
   /* A1 the chain is well-formed afterwards - in particular no link refers to a block that was freed */ \
   __CPROVER_ensures(c_arena_wf(self) == 0) \
   /* A2 result: NULL (allocation failure) or an 8-aligned range [p, p+size) inside the (new) current block, ending at the bump pointer */ \
@@ -70,7 +102,7 @@ static inline int c_arena_wf(const struct Arena* a) {
   __CPROVER_ensures(__CPROVER_return_value != NULL || (self->_ptr == __CPROVER_old(self->_ptr) && self->_end == __CPROVER_old(self->_end)))
 #endif
 
-#ifdef HAVE_STRUCT_Arena
+#if defined(HAVE_STRUCT_Arena) && defined(VERIF_UNIT_ARENA_RESET)
 /* ---- Arena::reset (property C16): hard reset returns the arena to its constructed state and frees every block exactly once;
  *      soft reset rewinds to the first block and keeps the chain. Dynamic block list: empty or one block. ------------------ */
 static inline int c_reset_post(const struct Arena* a, uint32_t policy, MB* first0, uint8_t min_shift0) {
@@ -99,4 +131,101 @@ static inline int c_reset_post(const struct Arena* a, uint32_t policy, MB* first
   __CPROVER_ensures(reset_policy == 1 ==> __CPROVER_was_freed(__CPROVER_old(self->_first_block))) \
   __CPROVER_ensures((reset_policy == 1 && __CPROVER_old(self->_current_block->next) != NULL) ==> __CPROVER_was_freed(__CPROVER_old(self->_current_block->next))) \
   __CPROVER_ensures(__CPROVER_old(self->_dynamic_blocks) != NULL ==> __CPROVER_was_freed(__CPROVER_old(self->_dynamic_blocks)))
+#endif
+
+
+#ifdef HAVE_STRUCT_Arena
+/* ---- Arena::_alloc_reusable / free_reusable (property C18: "returns aligned blocks that do not overlap any live block and recycles
+ *      only released ones"). This is the contract the ArenaVector units ASSUME for the allocator (contracts/c18_vector.h).
+ *      Free memory = the slot lists + the bump tail [_ptr, _end) of the current block; live memory = everything below _ptr in the
+ *      current block + other objects (ghost g_live). The call must hand out free memory only and keep the two disjoint.
+ *      Slot list heads are modelled as separate objects of their class size (in a running arena they lie inside managed blocks;
+ *      the code never compares or subtracts slot pointers, so only their disjointness matters). -------------------------------- */
+static inline uint64_t c_granted(uint64_t size) {      /* slot class 16 << k for requests <= 2048 bytes, else the request itself */
+  uint64_t s = 16;
+  for (unsigned k = 0; k < 8; k++, s <<= 1) if (size <= s) return s;
+  return size;
+}
+#define SLOT_PRE(self, i) \
+  __CPROVER_requires(self->_reusable_slots[i] == NULL || __CPROVER_is_fresh(self->_reusable_slots[i], (size_t)16 << i)) \
+  __CPROVER_requires(g_slot0[i] == self->_reusable_slots[i] && (self->_reusable_slots[i] == NULL || (g_slotnext0[i] == self->_reusable_slots[i]->next && g_slotnext0[i] != g_slot0[i] /* lists are acyclic */)))
+#define ARENA_SLOTS_PRE(self) SLOT_PRE(self, 0) SLOT_PRE(self, 1) SLOT_PRE(self, 2) SLOT_PRE(self, 3) SLOT_PRE(self, 4) SLOT_PRE(self, 5) SLOT_PRE(self, 6) SLOT_PRE(self, 7)
+#define SLOT_ASSIGNS(self, i) __CPROVER_assigns(self->_reusable_slots[i] != NULL: __CPROVER_object_whole(self->_reusable_slots[i]))
+
+static inline int c_alloc_reusable_post(const struct Arena* a, uint64_t size, uint64_t granted, const uint8_t* ret, MB* cur0) {
+  if (ret == NULL) return 0;                                            /* failure: reported by NULL (wf is a separate clause) */
+  if (granted != c_granted(size)) return 1;                             /* U1 the size reported is the slot class / the request */
+  if ((__CPROVER_POINTER_OFFSET(ret) % 8) != 0) return 2;                 /* U2 aligned */
+  if (!__CPROVER_w_ok(ret, granted)) return 3;                          /* U3 the whole block is addressable */
+  if (__CPROVER_same_object(ret, g_live)) return 4;                     /* U4 never another live object ... */
+  if (__CPROVER_same_object(ret, cur0) && __CPROVER_POINTER_OFFSET(ret) < g_ptr_off0) return 5;   /* ... nor anything below the old bump pointer */
+  if (__CPROVER_same_object(ret, cur0) && a->_current_block == cur0 &&
+      __CPROVER_POINTER_OFFSET(ret) + granted > __CPROVER_POINTER_OFFSET(a->_ptr)) return 6;      /* U5 and it is no longer part of the bump tail */
+  return 0;
+}
+/* every slot list head afterwards is free memory: the old head, its old successor (after a pop), or a piece of the old bump tail */
+static inline int c_slots_post(const struct Arena* a, const uint8_t* ret, MB* cur0) {
+  for (unsigned i = 0; i < 8; i++) {
+    const struct Arena_ReusableSlot* h = a->_reusable_slots[i];
+    if (h == NULL || h == g_slot0[i]) { if (h != NULL && (const uint8_t*)h == ret) return 10 + i; continue; }   /* the block handed out left its list */
+    if (g_slot0[i] != NULL && h == g_slotnext0[i] && (const uint8_t*)g_slot0[i] == ret) continue;                /* popped */
+    if (!__CPROVER_same_object(h, cur0)) return 20 + i;
+    if (__CPROVER_POINTER_OFFSET(h) < g_ptr_off0 || __CPROVER_POINTER_OFFSET(h) + ((uint64_t)16 << i) > sizeof(MB) + g_sz[0]) return 30 + i;
+    if ((__CPROVER_POINTER_OFFSET(h) % 8) != 0) return 40 + i;
+  }
+  return 0;
+}
+#define CONTRACT_Arena__alloc_reusable \
+  ARENA_CHAIN_PRE(self) ARENA_SLOTS_PRE(self) \
+  __CPROVER_requires(__CPROVER_is_fresh(allocated_size._val, sizeof(uint64_t))) \
+  __CPROVER_requires(__CPROVER_is_fresh(g_live, 16)) \
+  __CPROVER_requires(self->_dynamic_blocks == NULL || __CPROVER_is_fresh(self->_dynamic_blocks, sizeof(struct Arena_DynamicBlock) + 64)) \
+  __CPROVER_requires(g_ptr_off0 == __CPROVER_POINTER_OFFSET(self->_ptr)) \
+  __CPROVER_requires(size >= 1 && size <= ((uint64_t)1 << VERIF_MAXSHIFT)) \
+  __CPROVER_assigns(*self, *allocated_size._val, __CPROVER_object_whole(self->_current_block)) \
+  __CPROVER_assigns(self->_current_block->next != NULL: __CPROVER_object_whole(self->_current_block->next)) \
+  __CPROVER_assigns(self->_dynamic_blocks != NULL: __CPROVER_object_whole(self->_dynamic_blocks)) \
+  __CPROVER_frees(g_n1, g_n2) \
+  __CPROVER_ensures(c_arena_wf(self) == 0) \
+  __CPROVER_ensures(c_alloc_reusable_post(self, __CPROVER_old(size), *allocated_size._val, __CPROVER_return_value, __CPROVER_old(self->_current_block)) == 0) \
+  __CPROVER_ensures(c_slots_post(self, __CPROVER_return_value, __CPROVER_old(self->_current_block)) == 0)
+#endif
+
+
+#ifdef HAVE_STRUCT_Arena_DynamicBlock
+/* ---- Arena::free_reusable (+ _release_dynamic): a released block of a slot class becomes the head of exactly its class list (so that
+ *      the next _alloc_reusable of that class may hand it out again - "recycles only released ones"); a dynamic block is unlinked
+ *      from the doubly linked list and freed, the other blocks stay linked. Dynamic list: the block itself plus at most one other. -- */
+#define DYN_OBJ (sizeof(struct Arena_DynamicBlock) + 8 + 64)
+#define DYN_HDR (sizeof(struct Arena_DynamicBlock) + 8)
+static inline unsigned c_slot_class(uint64_t size) { uint64_t s = 16; for (unsigned k = 0; k < 8; k++, s <<= 1) if (size <= s) return k; return 8; }
+static inline int c_free_reusable_post(const struct Arena* a, const void* p, uint64_t size, struct Arena_DynamicBlock* dyn_list0) {
+  unsigned k = c_slot_class(size);
+  for (unsigned i = 0; i < 8; i++) {
+    if (i == k) { if ((const void*)a->_reusable_slots[i] != p || ((const struct Arena_ReusableSlot*)p)->next != g_slot0[i]) return 1; }   /* V1 head of its own class, old list behind it */
+    else if (a->_reusable_slots[i] != g_slot0[i]) return 2;                                                                          /* V2 other classes untouched */
+  }
+  if (k < 8) return a->_dynamic_blocks == dyn_list0 ? 0 : 3;
+  /* V3 dynamic block: unlinked, the remaining block (if any) is the whole list */
+  if (g_dpos == 0) return a->_dynamic_blocks == NULL ? 0 : 4;
+  if (a->_dynamic_blocks != g_oth || g_oth->prev != NULL || g_oth->next != NULL) return 5;
+  return 0;
+}
+#define CONTRACT_Arena_free_reusable \
+  __CPROVER_requires(__CPROVER_is_fresh(self, sizeof(*self))) \
+  __CPROVER_requires(size >= 1 && g_dpos <= 2) \
+  __CPROVER_requires(size <= 2048 ? __CPROVER_is_fresh(p, 2048) : \
+     (__CPROVER_is_fresh(g_dyn, DYN_OBJ) && __CPROVER_pointer_in_range_dfcc((uint8_t*)g_dyn + DYN_HDR, p, (uint8_t*)g_dyn + DYN_HDR) && \
+      PIN(((struct Arena_DynamicBlock**)p)[-1], g_dyn))) \
+  __CPROVER_requires(size <= 2048 || g_dpos == 0 || __CPROVER_is_fresh(g_oth, DYN_OBJ)) \
+  __CPROVER_requires(size <= 2048 || (g_dpos == 0 ? (PIN(self->_dynamic_blocks, g_dyn) && g_dyn->prev == NULL && g_dyn->next == NULL) : \
+                                       g_dpos == 1 ? (PIN(self->_dynamic_blocks, g_dyn) && g_dyn->prev == NULL && PIN(g_dyn->next, g_oth) && PIN(g_oth->prev, g_dyn) && g_oth->next == NULL) : \
+                                                     (PIN(self->_dynamic_blocks, g_oth) && g_oth->prev == NULL && PIN(g_oth->next, g_dyn) && PIN(g_dyn->prev, g_oth) && g_dyn->next == NULL))) \
+  __CPROVER_requires(g_slot0[0] == self->_reusable_slots[0] && g_slot0[1] == self->_reusable_slots[1] && g_slot0[2] == self->_reusable_slots[2] && g_slot0[3] == self->_reusable_slots[3] && \
+                     g_slot0[4] == self->_reusable_slots[4] && g_slot0[5] == self->_reusable_slots[5] && g_slot0[6] == self->_reusable_slots[6] && g_slot0[7] == self->_reusable_slots[7]) \
+  __CPROVER_assigns(*self, __CPROVER_object_whole(p)) \
+  __CPROVER_assigns(size > 2048 && g_dpos != 0: __CPROVER_object_whole(g_oth)) \
+  __CPROVER_frees(size > 2048: g_dyn) \
+  __CPROVER_ensures(c_free_reusable_post(self, p, size, __CPROVER_old(self->_dynamic_blocks)) == 0) \
+  __CPROVER_ensures(size > 2048 ==> __CPROVER_was_freed(g_dyn))
 #endif
